@@ -202,6 +202,7 @@ func (c *C08Case) Run() string {
 	if m := compareAt(res, want, eqVal); m != "" {
 		return desc + ": " + m
 	}
+	c08Last = arrOf(res)
 	if len(want.Shape) == 0 && !res.Shape().IsScalar() && res.Shape().TotalSize() != 1 {
 		return desc + fmt.Sprintf(": all axes reduced but the result has shape %v", res.Shape())
 	}
@@ -345,3 +346,5 @@ func (c *C08AllAxes) Run() string {
 	rec.ClassN("axis-sets", len(sets))
 	return ""
 }
+
+var c08Last Arr
